@@ -261,6 +261,38 @@ def runC03 (t : Tier) : Emit Unit := do
     let ps2 := Spec.packetsOf u ((5 + lost) % 16)
     emit "C03" (demuxCase (pat0Bytes ++ bytesOf (ps1.take (5 - lost) ++ ps2)) { view := .seq } none none "unit-start-with-counter-jump-and-queue")
     emit "C03" (demuxCase (bytesOf (ps2 ++ ps1.take (5 - lost) ++ ps2)) { view := .seq } none none "unit-start-with-counter-jump-and-queue")
+  -- sections with a CORRECT CRC whose section_length (4..12) leaves no room for the table's fixed part: every table family
+  let recrc (b : Bytes) : Bytes := b ++ Spec.be32' (Spec.crc b).toNat
+  for (tid, pidT) in [(0x00, 0), (0x02, 0x1000), (0x42, 0x11), (0x40, 0x10), (0x4e, 0x12), (0x73, 0x14)] do
+    for sl in [4:13] do
+      let junk ← liftGen (randBytes (sl - 4))
+      -- (behind the section: stuffing, or zeros — the fixed part that does not fit is then read as all-zero lengths)
+      for tail in ([[0xff, 0xff], List.replicate 12 0] : List Bytes) do
+        let unit : Bytes := [0] ++ recrc ([tid, 0xb0, sl] ++ junk) ++ tail
+        let u : Spec.TSUnit := { pid := pidT, payload := unit, data := [], psi := true, chunks := [unit.length] }
+        let st : Spec.StreamModel := { units := (if pidT = 0 then [u, u] else [pat0, u, u]), schedule := [] }
+        emit "C03" (demuxCase st.bytes { view := .seq } none none "crc-valid-tiny-section")
+  -- a table of every family cut at every offset (the unit simply ends there), and a PMT whose descriptor loop holds a
+  -- descriptor of every kind, cut at every offset of that descriptor
+  for k in [0:6] do
+    let (_, sb) ← liftGen (genSectionOfKind k false)
+    let pidT := [0, 0x1000, 0x11, 0x10, 0x12, 0x14].getD k 0
+    let unit : Bytes := [0] ++ sb
+    for cut in [1:min unit.length 160] do
+      let u : Spec.TSUnit := { pid := pidT, payload := unit.take cut, data := [], psi := true, chunks := [cut] }
+      let st : Spec.StreamModel := { units := (if pidT = 0 then [u, u] else [pat0, u, u]), schedule := [] }
+      emit "C03" (demuxCase st.bytes { view := .outcomes } none none "section-cut-at-every-offset")
+  for k in [0:25] do
+    let d ← liftGen (genDescriptorOfKind k)
+    let db := (writeDescriptor d).take 60
+    let es : Bytes := [0x1b, 0xe1, 0x00, 0xf0 + db.length / 256, db.length % 256] ++ db
+    let body : Bytes := [0, 1, 0xc1, 0, 0, 0xe1, 0x00, 0xf0, 0x00] ++ es
+    let l := body.length + 4
+    let unit : Bytes := [0] ++ recrc ([0x02, 0xb0 + l / 256, l % 256] ++ body)
+    for cut in [18:18 + db.length] do
+      let u : Spec.TSUnit := { pid := 0x1000, payload := unit.take cut, data := [], psi := true, chunks := [cut] }
+      let st : Spec.StreamModel := { units := [pat0, u, u], schedule := [] }
+      emit "C03" (demuxCase st.bytes { view := .outcomes } none none "pmt-cut-inside-a-descriptor")
   -- the CAT PID (1): units that look like a PES, like a PAT, like nothing — none of them is delivered as data
   for payload in ([[0, 0, 1, 0xe0, 0, 0, 0x80, 0, 0, 1, 2, 3], [0, 0, 0xb0, 0x0d, 0, 1, 0xc1, 0, 0, 0, 1, 0xf0, 0, 0x2a, 0xb1, 0x04, 0xb2],
                    [0, 1, 0xb0, 0x05, 1, 2, 3, 4, 5], [9, 9, 9, 9]] : List Bytes) do
